@@ -44,7 +44,9 @@ ASSUMPTIONS = [
     "chi2_analysis / remove_bad_data only when distinct live measurements > 2*(upper bound of the number of internal buses) (>=1 degree of freedom)",
 ]
 
-PROFILE = netgen.profile(oos=0.06, open_prob=0.2, noslack_island=False, dcline=False, second_slack=4,
+# out-of-service parts and open switches are added by _perturb below (netgen's float draws make most networks dead)
+PROFILE = netgen.profile(oos=0, open_prob=0.0, noslack_island=False, dcline=False, second_slack=4, nb_level=(1, 4),
+                         level_sets=netgen.LEVEL_SETS + [[110.0, 20.0], [20.0, 0.4], [110.0, 20.0, 0.4], [220.0, 110.0, 10.0]],
                          bus_kinds={"load": 5, "sgen": 3, "gen": 2, "storage": 1, "shunt": 2, "ward": 1, "xward": 0,
                                     "motor": 1, "asymmetric_load": 0, "asymmetric_sgen": 0})
 
@@ -76,13 +78,37 @@ def _extra(draw):
             "sd": draw(netgen.q(0.2, 5.0, nd=1)), "dup": draw(st.sampled_from([0, 0, 0, 0, 0, 1, 1, 2]))}
 
 
+def _perturb(recipe, toggles):
+    """0-4 single perturbations: element out of service / switch open / bus out of service (never a slack bus)"""
+    el = recipe["el"]
+    slack_buses = {e["bus"] for e in el if e["t"] == "ext_grid" or (e["t"] == "gen" and e.get("slack"))}
+    first_slack = next(i for i, e in enumerate(el) if e["t"] == "ext_grid" or (e["t"] == "gen" and e.get("slack")))
+    cand = {"el": [i for i, e in enumerate(el) if e["t"] != "switch" and i != first_slack],
+            "sw": [i for i, e in enumerate(el) if e["t"] == "switch"],
+            "bus": [i for i in range(len(recipe["buses"])) if i not in slack_buses]}
+    for kind, k in toggles:
+        c = cand[kind]
+        if not c:
+            continue
+        i = c[k % len(c)]
+        if kind == "el":
+            el[i]["in_service"] = False
+        elif kind == "sw":
+            el[i]["closed"] = False
+        else:
+            recipe["buses"][i]["in_service"] = False
+    return recipe
+
+
 @st.composite
 def _case(draw, tier):
     recipe = draw(netgen.grid(PROFILE))
+    toggles = draw(st.lists(st.tuples(st.sampled_from(["el", "el", "sw", "sw", "sw", "bus"]), st.integers(0, 400)), max_size=4))
+    recipe = _perturb(recipe, toggles)
     nb = len(recipe["buses"])
     alg = draw(st.sampled_from(["wls", "wls", "wls", "wls", "irwls", "irwls", "wls_with_zero_constraint"]))
     # zero_injection: default | explicit iterable of the injection-free buses (computed in check) | automatic detection
-    zi = draw(st.sampled_from(["aux_bus", "aux_bus", "aux_bus", "list", "list", "list", "list", "no_inj_bus"]))
+    zi = draw(st.sampled_from(["aux_bus"] * 7 + ["list"] * 8 + ["no_inj_bus"]))
     if alg == "wls_with_zero_constraint":
         if draw(st.integers(0, 3)):
             zi = "list"            # otherwise mostly rejected ("no bus with zero injections")
@@ -96,7 +122,7 @@ def _case(draw, tier):
             "v": draw(st.lists(st.integers(0, 40), min_size=0, max_size=3)),   # additional voltage measurements
             "core_sd": draw(netgen.q(0.2, 5.0, nd=1)),
             "core_dup": draw(st.lists(st.integers(0, 60), min_size=0, max_size=2)),
-            "extra": draw(st.lists(_extra(), min_size=0, max_size=3 * nb + 4)),
+            "extra": draw(st.integers(0, 2 * nb + 4).flatmap(lambda n: st.lists(_extra(), min_size=n, max_size=n))),
             "full": draw(st.integers(0, 7)) == 7,              # every measurable quantity once
             "dead": draw(st.integers(0, 5)) == 5,              # allow (zero) measurements on de-energized branches
             "side_as_bus": draw(st.integers(0, 19)) == 19}     # branch side given as bus index (documented alternative)
@@ -488,20 +514,37 @@ def check(case):
     t3_out_measured = any(r["et"] == "trafo3w" and r["el"] in T.t3_side_out for r in rows)
     alg, init = opt["algorithm"], opt["init"]
     # root-cause class of a failure: the first applicable fact about the input (specific shapes first)
+    no_dc_init = False
+    if init == "flat" and not (net.trafo.shift_degree.values != 0).any():
+        # estimate() starts the angles from a DC power flow only if a two-winding transformer has shift_degree != 0
+        for idx in net.trafo3w.index[net.trafo3w.in_service.values.astype(bool)]:
+            if net.trafo3w.at[idx, "shift_mv_degree"] != 0 or net.trafo3w.at[idx, "shift_lv_degree"] != 0:
+                no_dc_init = True
+        if "tap_step_degree" in net.trafo.columns:
+            for idx in net.trafo.index[net.trafo.in_service.values.astype(bool)]:
+                d = _nz(net.trafo.at[idx, "tap_step_degree"]) * (_nz(net.trafo.at[idx, "tap_pos"]) - _nz(net.trafo.at[idx, "tap_neutral"]))
+                if abs(d) > 20.0:
+                    no_dc_init = True
     if sab and has_branch_rows:
         fsig = "side-as-bus"
     elif t3_out_measured:
         fsig = "t3-terminal-oos"
     elif alg == "wls_with_zero_constraint" and sn != 1.0:
         fsig = "zero-constraint-sn!=1"
-    elif alg == "irwls" and init == "flat" and has_i:
-        fsig = "irwls-flat+i-meas"
+    elif no_dc_init:
+        fsig = "flat+phase-shift-no-dc-init"
     elif alg == "irwls" and T.n_aux > 0:
         fsig = "irwls+open-end-aux-bus"
     elif init == "flat" and has_i:
         fsig = "flat+i-meas"
     else:
         fsig = "plain"
+    shape = fsig in ("side-as-bus", "t3-terminal-oos", "zero-constraint-sn!=1", "flat+phase-shift-no-dc-init")
+
+    def sig(coarse, fine):
+        """known input shapes get one coarse signature per kind of observation, everything else a detailed one"""
+        return "%s/%s" % (fsig, coarse) if shape else "%s/%s" % (fine, fsig)
+
     vmdev = max(abs(float(net.res_bus.vm_pu.at[b]) - 1.0) for b in T.buses)
     loading = 0.0
     for t in ("line", "trafo", "trafo3w"):
@@ -531,6 +574,8 @@ def check(case):
                       (len(net.ext_grid) + int(net.gen.slack.sum() if len(net.gen) else 0) > 1, "multi-slack")):
         if cond:
             res.label(lab)
+    nlive = len(T.buses)
+    res.label("live-buses:" + ("1" if nlive == 1 else "2-4" if nlive <= 4 else "5+"))
     res.label("redundancy:" + ("0" if redundant == 0 else "1-5" if redundant <= 5 else "6-20" if redundant <= 20 else ">20"))
 
     zi = opt["zero_injection"]
@@ -547,19 +592,19 @@ def check(case):
             msg = str(e)
             if "no bus with zero injections" in msg:
                 return "skip", "rejected:no-zero-injection-bus"
-            return "fail", ("exc/%s/%s" % (exc_sig(e), fsig), {"error": msg[:300]})
+            return "fail", (sig("exc", "exc/" + exc_sig(e)), {"error": msg[:300]})
         except Exception as e:
             where = exc_sig(e)
             if where.endswith(":_add_zero_injection") and opt["zero_injection"] == "no_inj_bus":
                 # one root cause, several exception types (IndexError / IndexingError / ValueError)
                 return "fail", ("exc/no_inj_bus@estimation/ppc_conversion.py:_add_zero_injection", {"error": repr(e)[:300]})
-            return "fail", ("exc/%s/%s" % (where, fsig), {"error": repr(e)[:300]})
+            return "fail", (sig("exc", "exc/" + where), {"error": repr(e)[:300]})
         if not _success(r):
             if init == "flat" and stressed:
                 # Gauss-Newton from a flat start is not expected to reach an extreme operating point (documented return value False)
                 return "skip", "flat-start-not-converged:stressed-state"
-            return "fail", ("not-successful/%s/%s/%s" % (alg, init, fsig), {"returned": repr(r)[:200], "loading": loading,
-                                                                              "vmdev": vmdev})
+            return "fail", (sig("not-successful", "not-successful/%s/%s" % (alg, init)),
+                            {"returned": repr(r)[:200], "loading": loading, "vmdev": vmdev})
         return "ok", None
 
     ref_bus = net.res_bus[["vm_pu", "va_degree"]].copy()
@@ -572,8 +617,10 @@ def check(case):
     if st_ == "fail":
         res.fail(what[0], opt=opt, n_meas=len(rows), **what[1])
         return res
-    for kind, detail in compare_state(net, ref_bus, ref_tabs, sn, "truth"):
-        res.fail("truth/%s/%s/%s" % (kind, alg, fsig), opt=opt, n_meas=len(rows), **detail)
+    diffs = compare_state(net, ref_bus, ref_tabs, sn, "truth")
+    if diffs:
+        kind = "voltage" if diffs[0][0] in ("vm", "va") else diffs[0][0]
+        res.fail(sig("wrong-estimate", "truth/%s/%s" % (kind, alg)), opt=opt, n_meas=len(rows), diffs=diffs[:4])
     res.nontrivial = redundant >= 1 and (live_tr or live_t3 or T.loop)
     if res.failures:
         return res
@@ -600,11 +647,13 @@ def check(case):
     st_, what = run_est(net2)
     if st_ == "fail":
         # a convergence failure of the variant has the root cause of a convergence failure, not of an order dependence
-        sig = what[0] if what[0].startswith("not-successful/") else "metamorphic/" + what[0]
-        res.fail(sig, opt=opt, meta=meta, variant=True, **what[1])
+        s_ = what[0] if ("not-successful" in what[0] or shape) else "metamorphic/" + what[0]
+        res.fail(s_, opt=opt, meta=meta, variant=True, **what[1])
     elif st_ == "ok":
-        for kind, detail in compare_state(net2, est_bus, est_tabs, sn, "meta"):
-            res.fail("metamorphic/%s/%s/%s" % (kind, meta["mode"], fsig), opt=opt, meta=meta, **detail)
+        diffs = compare_state(net2, est_bus, est_tabs, sn, "meta")
+        if diffs:
+            kind = "voltage" if diffs[0][0] in ("vm", "va") else diffs[0][0]
+            res.fail(sig("metamorphic", "metamorphic/%s/%s" % (kind, meta["mode"])), opt=opt, meta=meta, diffs=diffs[:4])
     if res.failures:
         return res
 
@@ -648,17 +697,17 @@ def check(case):
                         again = chi2(1e-11)
                     except Exception:
                         again = "exc"
-                    cls = "only-at-tolerance>=%g" % opt["tolerance"] if again is False else fsig
-                    res.fail("chi2/flagged/%s" % cls, returned=repr(flagged), at_tol_1e_11=repr(again), opt=opt, n_meas=len(rows))
+                    cls = "vanishes-at-tolerance-1e-11" if again is False else fsig
+                    res.fail(sig("chi2", "chi2/flagged") if again is not False else "chi2/flagged/" + cls, returned=repr(flagged), at_tol_1e_11=repr(again), opt=opt, n_meas=len(rows))
             except Exception as e:
-                res.fail("chi2/exc/%s/%s" % (exc_sig(e), fsig), error=repr(e)[:300], opt=opt)
+                res.fail(sig("chi2", "chi2/exc/" + exc_sig(e)), error=repr(e)[:300], opt=opt)
         # largest-normalised-residual test: undefined for critical measurements (residual covariance 0), therefore only
         # with the full measurement set, where every measurement is redundant
-        if plan["full"]:
+        if plan["full"] and all(len(c) >= 2 for c in T.components):
             res.label("rn_max-test")
             what, detail = rn_max(opt["tolerance"])
             if what:
                 again, _ = rn_max(1e-11)
-                cls = "only-at-tolerance>=%g" % opt["tolerance"] if again is None else fsig
-                res.fail("rn_max/%s/%s" % (what, cls), detail=detail, at_tol_1e_11=again, opt=opt, n_meas=len(rows))
+                cls = "vanishes-at-tolerance-1e-11" if again is None else fsig
+                res.fail(sig("rn_max", "rn_max/" + what) if again is not None else "rn_max/%s/%s" % (what, cls), detail=detail, at_tol_1e_11=again, opt=opt, n_meas=len(rows))
     return res
